@@ -1,7 +1,8 @@
 """C19 -- acceptance and results do not depend on how resources are configured.
 
 Every public entry point discovered by calling the API on metadata arrays (one-array and two-array functions, plus
-manual entries for operators, indexing, pad, rechunk, nan-functions, map_blocks, apply_gufunc, store) is built under
+manual entries for operators, indexing, pad, rechunk, nan-functions, map_blocks, apply_gufunc, store, and calls that mix a
+cubed operand with a numpy array or Python scalar in every position) is built under
 an EXPLICIT Spec whose allowed_mem / reserved_mem are solver variables and whose work_dir / compressor / executor /
 storage_options are varied: the construction must be accepted exactly as under the default configuration (no
 'Arrays must have same spec' from a helper array created without the operands' spec), must record the same operation
@@ -25,18 +26,19 @@ TRUSTED_BASE = ["geom backend (metadata arrays)", "entry-point discovery by call
 ASSUMPTIONS = ["value equality across real stores/codecs is outside (C01 decides values for the geometry recorded here)",
                "allowed_mem is taken large enough for the plan: acceptance at build time does not depend on it (admission is C04's subject)"]
 
-_ONE = _TWO = None
+_ONE = _TWO = _MIX = None
 
 
 def entry_points():
-    global _ONE, _TWO
+    global _ONE, _TWO, _MIX
     if _ONE is None:
         with warnings.catch_warnings():
             warnings.simplefilter("ignore")
             # take() evaluates its index argument eagerly (a real computation): exempt by the property statement
             _ONE = [n for n in EP.discover_one_array_entry_points() if n != "take"]
             _TWO = EP.discover_two_array_entry_points()
-    return _ONE, _TWO
+            _MIX = EP.discover_mixed_entry_points()
+    return _ONE, _TWO, _MIX
 
 
 def geometry(res):
@@ -59,6 +61,8 @@ def _build(kind, name, spec):
     G.reset_names()
     with warnings.catch_warnings():
         warnings.simplefilter("ignore")
+        if kind == 3:
+            return EP.call_mixed(name, EP._arr("x", spec))
         if kind == 1:
             last = None
             for d in ("float64", "int64", "bool"):
@@ -116,13 +120,13 @@ def obligations(tier):
     import cubed.primitive.memory as pm
     import cubed.spec as cs
 
-    one, two = entry_points()
+    one, two, mixed = entry_points()
     fns = [ca.CoreArray.__init__, ca.check_array_specs, cs.spec_from_config, ops.map_blocks, ops.general_blockwise, ops.blockwise, cf.asarray, cf.empty_virtual_array,
            cf._tri_mask, cf._like_args, sf.searchsorted, pm.get_buffer_copies]
     wall = 600 if tier == "quick" else 3000
     V = [("A", 0, 10**12), ("R", 0, 10**12), ("variant", 0, 4)]
     o = []
-    for kind, names in ((1, one), (2, two)):
+    for kind, names in ((1, one), (2, two), (3, mixed)):
         for nm in names:
             o.append(Obl(f"config[{nm}/{kind}]", (lambda kind, nm: lambda **kw: config_independent(kind, nm, **kw))(kind, nm), V, setup=G.install, functions=fns, wall_s=wall,
                          bounds="explicit Spec with symbolic allowed_mem / reserved_mem (up to 1e12) and 5 variants of work_dir (none, local, cloud) / compressor (auto, none) / executor, versus the default configuration",
